@@ -291,7 +291,7 @@ def fixed_texts(tier):
 
 def deep_texts(tier):
     out = []
-    ns = [10, 100, 511, 512, 513, 100000] if tier == "quick" else [10, 100, 510, 511, 512, 513, 514, 1000, 5000, 100000, 1000000]
+    ns = [10, 100, 511, 512, 513, 20000, 100000] if tier == "quick" else [10, 100, 510, 511, 512, 513, 514, 1000, 5000, 20000, 100000, 1000000]
     for n in ns:
         out.append(("deep", b"[" * n))
         if n <= 5000:
@@ -434,7 +434,7 @@ def compare(case, impl, model):
 def judge(c, case, kind, impl, verdict, known_nonfinite):
     """oracle: verdict of the extracted specification (+ python tolerance for doubles)"""
     def bad(what):
-        c.fail(what, {"case": case if len(case) < 4000 else case[:4000] + "...", "kind": kind, "impl": impl[:2000], "spec_verdict": verdict,
+        c.fail(what, {"case": case if len(case) < 400000 else case[:4000] + "...", "kind": kind, "impl": impl[:2000], "spec_verdict": verdict,
                       "format": "from <hex text> | rt <tree>; tree tokens N T F I<int> S<hex> D<double bits> V<n> M<n> K<hex key>"})
     if impl.startswith("SIG(") or impl.startswith("EXIT("):
         return bad("the process died (signal / sanitizer report) instead of returning a value or throwing")
@@ -509,6 +509,7 @@ def run(c, cases, hbin, mbin, sbin, model_skip=lambda case: False):
                 if ndis <= 10:
                     c.disagree("json:" + kind, line if len(line) < 3000 else line[:3000] + "...", i[:1500], m[:1500])
         judge(c, line, kind, i, v, known_nonfinite)
+    c.failures.sort(key=lambda f: len(f["case"].get("case", "")))     # the replay leads with the smallest failing input
     c.cov["distinct_nontrivial"] += len(seen)
     c.cov["traces_validated_against_impl"] += sum(1 for m in model if m is not None)
     return impl, model, verdicts
